@@ -2888,6 +2888,12 @@ func (te *TemplateEngine) processImagePlaceholdersInTable(table *Table, data *Te
 					}
 				}
 			}
+			// 递归处理嵌套表格中的图片占位符
+			for tblIdx := range cell.Tables {
+				if err := te.processImagePlaceholdersInTable(&cell.Tables[tblIdx], data, doc); err != nil {
+					return err
+				}
+			}
 		}
 	}
 	return nil
